@@ -15,6 +15,7 @@ FxName(f) ==
       [] f.k = "SetRVBlob"      -> "SetRVBlob:" \o f.d \o ":" \o ToString(f.ttl)
       [] f.k = "ReplaceVoucher" -> "ReplaceVoucher:" \o f.d
       [] f.k = "ModuleCall"     -> "ModuleCall:" \o ToString(f.m)
+      [] f.k = "KeysStored"     -> "KeysStored"
 FxNames(fx) == [i \in 1..Len(fx) |-> FxName(fx[i])]
 
 (* the logged outcome must be the outcome the specification allows *)
@@ -38,8 +39,8 @@ TMutant  == /\ Ev.kind = "mutant"
 TOrphan  == Ev.kind = "orphan" /\ OrphanStart(Ev.s, Ev.t, Ev.b) /\ Match
 TErrMsg  == Ev.kind = "errmsg" /\ ErrorMsg(Ev.s, Ev.tok) /\ Match
 TExpire  == /\ Ev.kind = "expire"
-            /\ \/ rv[Ev.d] = "reg" /\ Expire(Ev.d)
-               \/ rv[Ev.d] # "reg" /\ UNCHANGED vars
+            /\ \/ rv[Ev.d] \in {"reg", "regnc"} /\ Expire(Ev.d)
+               \/ rv[Ev.d] \notin {"reg", "regnc"} /\ UNCHANGED vars
 TRestart == Ev.kind = "restart" /\ Restart
 TReset   == /\ Ev.kind = "reset"
             /\ sess' = [s \in Slots |-> NoSess]
